@@ -354,6 +354,8 @@ func vdLeafrefStream(rng *rand.Rand, n int, tier string, out string) (*Summary, 
 		{"nil", "LrNil", nil},
 		{"non-nil", "LrNonNil", []ygot.ValidationOption{&ytypes.LeafrefOptions{}}},
 		{"ignore", "LrIgnore", []ygot.ValidationOption{&ytypes.LeafrefOptions{IgnoreMissingData: true}}},
+		// Log asks for logging of what is ignored: it must not turn anything into an error
+		{"ignore-log", "LrIgnore", []ygot.ValidationOption{&ytypes.LeafrefOptions{IgnoreMissingData: true, Log: true}}},
 	}
 	for _, name := range names {
 		if isReplay && rp.Pkg != name {
@@ -457,11 +459,11 @@ func vdLeafrefStream(rng *rand.Rand, n int, tier string, out string) (*Summary, 
 				sum.OracleRuns++
 				sum.count("mode_"+m.name, map[bool]string{true: "error", false: "no error"}[len(lr) > 0])
 				switch {
-				case m.name == "ignore" && len(lr) > 0:
+				case strings.HasPrefix(m.name, "ignore") && len(lr) > 0:
 					sum.finding(Finding{Signature: "leafref/error-despite-ignore-missing-data", What: "leafref error with IgnoreMissingData: " + lr[0], Input: in})
 				case m.name == "nil" && ndang > 0 && len(lr) == 0:
 					sum.finding(Finding{Signature: "leafref/dangling-not-reported", What: "dangling leafref not reported: " + firstDangling, Input: in})
-				case m.name != "ignore" && ndang == 0 && len(lr) > 0:
+				case !strings.HasPrefix(m.name, "ignore") && ndang == 0 && len(lr) > 0:
 					sum.finding(Finding{Signature: "leafref/false-error", What: "every leafref value is among the selected values, but: " + lr[0], Input: in})
 				case m.name == "non-nil" && ndang > 0 && len(lr) == 0:
 					// (cannot happen once leafrefErrOrLog is repaired)
